@@ -2103,6 +2103,10 @@ def compile_import(compiler, expr, root, is_lazy, entries):
         else:
             node = asty.ImportFrom
             names = []
+            if not assignments:
+                compiler._syntax_error(
+                    entry[1], "an empty list of names to import"
+                )
             for k, v in assignments:
                 compiler.scope.define(mangle(v))
                 names.append(asty.alias(
